@@ -276,7 +276,11 @@ def draw_property_layers(
         if isinstance(space, OrthogonalGrid) and not isinstance(space, HexGrid):
             if "color" in portrayal:
                 data = data.T
-                normalized_data = (data - vmin) / (vmax - vmin)
+                # a range without extent (a constant layer) maps to 0, as matplotlib's Normalize does
+                span = vmax - vmin
+                normalized_data = (
+                    (data - vmin) / span if span != 0 else np.zeros(data.shape)
+                )
                 rgba_data = np.full((*data.shape, 4), rgba_color)
                 rgba_data[..., 3] *= normalized_data * alpha
                 rgba_data = np.clip(rgba_data, 0, 1)
